@@ -40,8 +40,14 @@ static void vp_mk_lmq(nni_lmq *q, int msgs)
 		q->lmq_alloc = 0;
 		q->lmq_msgs  = &q->lmq_buf[0];
 	} else {
+#ifdef PX_RING_SLOTS
+		/* bounded units: a heap ring of exactly PX_RING_SLOTS slots (constant object size) */
+		q->lmq_alloc = PX_RING_SLOTS;
+		q->lmq_msgs  = (nng_msg **) __CPROVER_allocate(PX_RING_SLOTS * sizeof(nng_msg *), 0);
+#else
 		__CPROVER_assume(q->lmq_alloc >= 2 && q->lmq_alloc <= PX_MAXALLOC);
 		q->lmq_msgs = (nng_msg **) __CPROVER_allocate(q->lmq_alloc * sizeof(nng_msg *), 0);
+#endif
 	}
 	if (msgs) {
 		size_t n = q->lmq_alloc == 0 ? 2 : q->lmq_alloc;
